@@ -32,10 +32,17 @@ def text_of(d, index: int = 0) -> str:
     if d.get("text") is not None:
         return d["text"]
     lines = ["# %s" % d["name"]]
-    for i, r in enumerate(d.get("refs", [])):
+    refs = list(enumerate(d.get("refs", [])))
+    for i, r in (refs if not d.get("service") else refs[0::2]):
         lines.append("%s r%d" % (ref_expr(d, r), i))
     lines.append("uint8[%d] payload" % (index + 1))
     lines.append("@sealed")
+    if d.get("service"):  # a service definition: references with odd positions live in the response section
+        lines.append("---")
+        for i, r in refs[1::2]:
+            lines.append("%s r%d" % (ref_expr(d, r), i))
+        lines.append("uint8 status")
+        lines.append("@extent 64 * 8")
     return "\n".join(lines) + "\n"
 
 
